@@ -46,6 +46,27 @@ def run(F, rep, tier):
     # `known to be pure` includes the library: an external declared `pu` does not change what it is given
     import c18
     c18.purity_decl(F, rep)
+    # a function inside an enum payload or a blob field meets the declared `pu` only if unifying two enums / blobs compares their
+    # members (shared with C02/C03)
+    import core
+    import c03
+    core.borrow(rep, c03.pairing, lambda o: o["rule"] == "FIELD-SETS", F)
+    # .. and a requirement recorded on a node stays until the node is merged: a handler that removes the constraint it has just
+    # checked forgets it for the next type the node meets
+    constraints_are_kept(F, rep)
+
+
+def constraints_are_kept(F, rep, rule="UNIFY-CORE"):
+    bad = []
+    for fn in F.fns_in(TCM):
+        for c in nodes(fn_body(fn), "MethodCall"):
+            if c["m"] in ("remove", "clear", "retain", "pop_first", "pop_last") and "constraints" in pp(c["recv"]):
+                bad.append((fn, c))
+    rep.ob(rule, "constraints-are-never-removed", not bad,
+           "no function of the checker takes a recorded constraint off a node" if not bad else
+           "%s removes entries from a node's constraints (`%s`): a requirement that was satisfied by one unification is not "
+           "looked at again when the node meets the next type - a `Step.Apply <impure fn>` passes where the payload is declared `pu`"
+           % (last(bad[0][0]["_path"], 2), pp(bad[0][1])[:70]), line_of(bad[0][1]) if bad else None)
 
 
 def assignability(F, rep):
